@@ -267,6 +267,8 @@ impl Server {
                 self.execs.push(ExecSlot { id: rq_id, deadline_ns: rq_deadline, slot: Slot::Offered(req), cell: Rc::new(RefCell::new(HCell::default())), fw, waker });
                 log(format!("ret {name} item"));
                 self.counts();
+                // a stream that yielded an item has not parked: its consumer polls it again
+                self.fw.flag.store(true, Ordering::SeqCst);
             }
         }
     }
@@ -320,6 +322,60 @@ impl Server {
         }
     }
 
+    /// Polls woken tasks (the request stream first, then executions in order) until none is woken,
+    /// then reports what is stuck (mirrors `Server/Settle.lean`).
+    pub fn settle(&mut self) {
+        for _ in 0..400 {
+            if self.woken() {
+                self.poll_server();
+            } else if let Some(r) = (0..self.execs.len()).find(|r| self.exec_woken(*r)) {
+                self.poll_exec(r);
+            } else {
+                break;
+            }
+        }
+        if self.woken() || (0..self.execs.len()).any(|r| self.exec_woken(r)) || !self.alive() {
+            log("settled ok".into());
+            return;
+        }
+        let (ready_now, failed, inbound, eof_read) = {
+            let s = self.sim.borrow();
+            (
+                if s.coupled { s.buffered.len() < s.cap } else { s.ready_open && s.buffered.len() < s.cap },
+                s.failed,
+                s.inbound.len(),
+                s.eof_read,
+            )
+        };
+        let _ = eof_read;
+        if !ready_now || failed {
+            log("settled ok".into());
+            return;
+        }
+        let mut stuck = vec![];
+        let queued = self.queued_responses();
+        if queued > 0 {
+            stuck.push(format!("responses-queued={queued}"));
+        }
+        if inbound > 0 && !eof_read {
+            stuck.push(format!("inbound-unread={inbound}"));
+        }
+        if stuck.is_empty() {
+            log("settled ok".into());
+        } else {
+            log(format!("settled stuck {}", stuck.join(" ")));
+        }
+    }
+
+    /// Responses handlers have queued that the request stream has not taken yet.
+    fn queued_responses(&self) -> usize {
+        match self.reqs.as_ref() {
+            Some(Reqs::Base(r)) => r.verif_pending_responses(),
+            Some(Reqs::Lim(r)) => r.verif_pending_responses(),
+            None => 0,
+        }
+    }
+
     pub fn drop_server(&mut self) {
         if self.reqs.is_none() {
             log("noop".into());
@@ -348,6 +404,7 @@ pub enum Op {
     Fault(&'static str),
     Take(usize),
     Advance(u64),
+    Settle,
 }
 
 fn kv<'a>(toks: &[&'a str], key: &str) -> Option<&'a str> {
@@ -397,11 +454,13 @@ impl Op {
             ["fault", k] => ["ready", "send", "flush", "close", "next"].into_iter().find(|x| x == k).map(Op::Fault),
             ["take", n] => Some(Op::Take(n.parse().ok()?)),
             ["advance", n] => Some(Op::Advance(n.parse().ok()?)),
+            ["settle"] => Some(Op::Settle),
             _ => None,
         }
     }
     pub fn render(&self) -> String {
         match self {
+            Op::Settle => "settle".into(),
             Op::PollServer => "poll-server".into(),
             Op::DropServer => "drop-server".into(),
             Op::PollExec(r) => format!("poll-exec {r}"),
@@ -471,6 +530,7 @@ pub fn apply(out: &mut Out, rt: &tokio::runtime::Runtime, sv: &mut Server, op: &
         Op::Advance(n) => {
             rt.block_on(tokio::time::advance(Duration::from_nanos(*n)));
         }
+        Op::Settle => sv.settle(),
     }
     crate::cli::flush_log(out);
 }
@@ -540,6 +600,7 @@ fn gen_op(rng: &mut Rng, sv: &Server, g: &mut Gen, p: &Params) -> Op {
         if p.faults { 1 } else { 0 },                      // 11 inject err
         1,                                                 // 12 eof
         if p.faults && sv.alive() { 1 } else { 0 },        // 13 drop-server
+        if p.wo { 6 } else { 0 },                          // 14 settle
     ];
     match rng.weighted(&w) {
         0 => {
@@ -594,7 +655,8 @@ fn gen_op(rng: &mut Rng, sv: &Server, g: &mut Gen, p: &Params) -> Op {
         10 => Op::Fault(*rng.pick(&["ready", "send", "flush", "next"])),
         11 => Op::InjectErr,
         12 => Op::Eof,
-        _ => Op::DropServer,
+        13 => Op::DropServer,
+        _ => Op::Settle,
     }
 }
 
